@@ -1,10 +1,8 @@
 import AasVerif.Lemmas.JsonSchemaLookup
 import AasVerif.Lemmas.JsonSchemaTighten
-<<<<<<< HEAD
 import AasVerif.Lemmas.JsonSchemaSearchB
-=======
+
 import AasVerif.Lemmas.JsonSchemaDispatch
->>>>>>> 3b801aa4d6d8f2c3db6a941074c9d9dbc6e76170
 /-!
 # C12 — JSON Schema enforces every inferred constraint
 
@@ -383,7 +381,6 @@ example : (match concreteDefinition leafC, inheritableDefinition rootC with
       validates twoDefs 12 s (.obj [(ascii "name", .str (ascii "a")), (modelTypeKey, .str (ascii "Leaf"))]) == some false
     | _, _ => false) = true := by decide
 
-<<<<<<< HEAD
 /-! ## Patterns, in the denotational semantics -/
 
 /-- **`pattern_miss_rejected`, in the semantics.** A string in whose UTF-16 units one of the inferred
@@ -405,7 +402,7 @@ theorem pattern_miss_definite (defs : Defs) (r : Schema → Json → Option Bool
 example : ¬ Search (.mk [.mk [.mk (.sym .start) none, .mk (.char ⟨97, false⟩) none, .mk (.sym .stop) none]])
     [97, 98] := by
   rw [← searchB_no_iff]; decide
-=======
+
 /-! ## Whole documents: ancestor paths of any length, several parents, classes with descendants
 
 `DocOK mm defs c j` (`Lemmas/JsonSchemaDocument`): `j` is an object, carries `modelType = c` if the class
@@ -582,6 +579,5 @@ example : hierOK diamondMM = true ∧
     validates diamondDefs 20 (refTo (ascii "D")) (.obj [(ascii "x", .str (ascii "abcdef")),
       (modelTypeKey, .str (ascii "D"))]) = some false := by
   refine ⟨by decide, by decide, by decide, by decide, by decide⟩
->>>>>>> 3b801aa4d6d8f2c3db6a941074c9d9dbc6e76170
 
 end AasVerif.Props.C12
